@@ -103,9 +103,9 @@ theorem program_matches_api_calls :
     soloOps todayMem 9 (init (st (.burn .preAuth)) [.burn { kind := .preAuth, id := "s", want := "c" }])
       = ex (.burn .preAuth) (Kind.burn .preAuth).api ∧
     -- s2s nonce, DPoP jti: PutIfAbsent (Get, and Set when it missed)
-    soloOps todayMem 9 (init [] [.mark ⟨.s2s, "s"⟩]) = ex (.mark .s2s) (Kind.mark .s2s).api ∧
-    soloOps todayMem 9 (init [] [.mark ⟨.jti, "s"⟩]) = ex (.mark .jti) (Kind.mark .jti).api ∧
-    soloOps todayMem 9 (init (st (.mark .s2s)) [.mark ⟨.s2s, "s"⟩]) = ["get"] := by
+    soloOps todayMem 9 (init [] [.mark { kind := .s2s, id := "s" }]) = ex (.mark .s2s) (Kind.mark .s2s).api ∧
+    soloOps todayMem 9 (init [] [.mark { kind := .jti, id := "s" }]) = ex (.mark .jti) (Kind.mark .jti).api ∧
+    soloOps todayMem 9 (init (st (.mark .s2s)) [.mark { kind := .s2s, id := "s" }]) = ["get"] := by
   decide
 
 /-! ### at most once when the consume step is atomic -/
@@ -202,16 +202,17 @@ theorem dead_after_ttl (cfg : Cfg) (w : World) (k : Key) (b : BurnKind) (hk : k.
   dead_never_honoured cfg w k b hk (by simp [stGet, he, hexp]) i t hi hkey hidle s t' ht'
 
 /-- An authorization code is dead after ANY finished redemption attempt (successful or failed on any branch after the
-    presence check of `code`): in every schedule `s1` after which some attempt `j` on the code has finished, the code
+    presence check of `code`; `hdel`: its Deletes reached the store): in every schedule `s1` after which some attempt `j` on the code has finished, the code
     is absent from the store, and every request `i` that had not yet passed its Get at that moment is refused in
     every continuation `s2`.  Holds for every shape of GetAndDelete. -/
 theorem code_dead_after_failed_attempt (cfg : Cfg) (st : Store) (reqs : List Req) (s1 s2 : List Ev)
     (j : Nat) (r : BurnReq) (o : Outcome) (f : Nat)
     (hj : (run cfg s1 (init st reqs)).ths[j]? = some (Thread.burn r (.done o) f)) (hc : r.kind = .code)
+    (hdel : r.failDel = false)
     (i : Nat) (t : Thread) (hi : (run cfg s1 (init st reqs)).ths[i]? = some t) (hkey : t.key = r.key) (hidle : t.idle = true)
     (t' : Thread) (ht' : (run cfg s2 (run cfg s1 (init st reqs))).ths[i]? = some t') :
     stFind (run cfg s1 (init st reqs)).store r.key = none ∧ t'.took = false := by
-  have hgone := CInv_run cfg s1 _ (CInv_init st reqs) j r o f hj hc
+  have hgone := CInv_run cfg s1 _ (CInv_init st reqs) j r o f hj hc hdel
   exact ⟨hgone, dead_never_honoured cfg _ r.key r.kind rfl (stGet_none_of_find_none _ _ _ _ hgone) i t hi hkey hidle s2 t' ht'⟩
 
 /-! ### nonce memory vs. the acceptance window of a service-to-service presentation -/
@@ -242,6 +243,28 @@ theorem s2s_no_replay_inside_window (cfg : Cfg) (ha : AtomicMark cfg) (window : 
   have := mark_successes_separated cfg ha st reqs sched i j ri rj fi fj hij hi hj hk
   rw [hs] at this
   omega
+
+/-! ### store faults fail closed -/
+
+/-- A request whose underlying Get fails (any consumer), or whose Set fails (mark consumers), is never honoured and
+    never obtains the value — for every configuration and EVERY schedule.  (A slip that treats "store error" like
+    "not found" would let a replay through while the store is unreachable.) -/
+theorem store_fault_fails_closed (cfg : Cfg) (st : Store) (reqs : List Req) (sched : List Ev) (i : Nat)
+    (r : Req) (hr : reqs[i]? = some r) (hf : r.thread.faulty = true)
+    (t : Thread) (ht : (run cfg sched (init st reqs)).ths[i]? = some t) : t.won = false ∧ t.took = false := by
+  have h0 : ∀ t0, (init st reqs).ths[i]? = some t0 → t0.faulty = true ∧ t0.safe = true := by
+    intro t0 h
+    simp only [init, List.getElem?_map, hr, Option.map_some] at h
+    injection h with h; subst h
+    refine ⟨hf, ?_⟩
+    cases r <;> simp [Req.thread, Thread.safe, Thread.idle, Thread.took]
+  exact safe_not_won t ((faulty_safe_run cfg i sched _ h0) t ht).2
+
+/-- with all store faults switched on, the at-most-once invariants still hold (they are proved for every request,
+    faulty or not); a concrete run: Get fails for the first request, the second one is honoured, the third refused -/
+example : ((run todayMem [.step 0, .step 0, .step 1, .step 1, .step 1, .step 2, .step 2]
+    (init [] [.mark ⟨.s2s, "n", true, false⟩, .mark ⟨.s2s, "n", false, false⟩, .mark ⟨.s2s, "n", false, false⟩])).ths.map Thread.outcome)
+    = [some .storeErr, some .ok, some .used] := by decide
 
 /-! ### the two-call shapes without a lock are not atomic: negation witnesses
     (the code before 8cb8dd5 / 97727dc; still the situation of several nodes sharing one Redis, whose mutexes are
@@ -311,7 +334,7 @@ example : ¬ NoSplit cfgTwoCalls (init witnessStore [witnessCodeReq, witnessCode
   fun h => absurd ((noSplitB_iff _ _ _).mpr h) (by decide)
 /-- mark consumers under the lock: first accepted, concurrent second refused, a third after the TTL accepted again -/
 example : ((run { cfgTwoCalls with mark := fun _ => .locked } [.step 0, .step 1, .step 0, .step 1, .step 0, .step 1, .step 1, .tick 61, .step 2, .step 2, .step 2]
-    (init [] [.mark ⟨.s2s, "n1"⟩, .mark ⟨.s2s, "n1"⟩, .mark ⟨.s2s, "n1"⟩])).ths.map Thread.outcome) = [some .ok, some .used, some .ok] := by decide
+    (init [] [.mark { kind := .s2s, id := "n1" }, .mark { kind := .s2s, id := "n1" }, .mark { kind := .s2s, id := "n1" }])).ths.map Thread.outcome) = [some .ok, some .used, some .ok] := by decide
 /-- a failed attempt (wrong client_id) burns the code: the honest request that comes next is refused -/
 example : ((run todayMem [.step 0, .step 0, .step 0, .step 0, .step 1, .step 1, .step 1]
     (init witnessStore [.burn { kind := .code, id := "s1", want := "clientB" }, witnessCodeReq])).ths.map Thread.outcome)
